@@ -1,3 +1,4 @@
+import Grexv.Gen.GraphemeSites
 import Grexv.Lemmas.RunShape
 import Grexv.Lemmas.EndToEndRV
 import Grexv.Model.Format
@@ -454,5 +455,11 @@ theorem run_groups_all_or_none (cfg : Config) (env : Env) (ws : List Str) (st : 
   · exact ⟨_, by rw [(run_shape_verbose cfg hp env ws st h hseg hws).2, hp.verb], groupsAll_shape _ _ _ _ _⟩
   · exact ⟨_, by rw [(run_shape_rep cfg hp env ws st h hseg hlen' hws).2, hp.verb], groupsAll_shapeR _ _ _ _ _⟩
   · exact ⟨_, by rw [(run_shape_rep_verbose cfg hp env ws st h hseg hlen' hws).2, hp.verb], groupsAll_shapeR _ _ _ _ _⟩
+
+/-- **the printing options of a grapheme are those of the configuration** (read off the source on every run): the code stores the
+three printing options — capturing groups, colour, verbose — in every `Grapheme` it creates; the model prints each grapheme with the
+options of the configuration.  Every creation site outside the test modules hands over the three options of one configuration in the
+constructor's order, and the constructors store them under their own names -/
+theorem grapheme_options_follow_config : Gen.graphemeOptionSites.all (fun r => r.2) = true := by decide
 
 end Grexv.Props.C06
